@@ -354,7 +354,7 @@ class _Gen:
                 if self.target == "well_posed":
                     cands = [(o, b) for (o, b) in cands if self.pre[(o, b)]]
                     cands_same = [(o, b) for (o, b) in cands_same if self.pre[(o, b)]]
-                    if mode == "size_only":
+                    if mode == "size_only" or pos_kind == "ext":  # an extension alone is not a "position" in the known-finding wording
                         cands = cands_same = []
                 if general and r.uniform() < 0.6:  # favour extents that only the fallback can determine
                     late = [(o, b) for (o, b) in cands if (o, b) in self.chained] if r.uniform() < 0.6 else []
